@@ -56,7 +56,44 @@ const ENUM_ALPHA: usize = 6;
 const ENUM_SEQS: u64 = 6 + 36 + 216 + 1296;
 pub const ENUM_TOTAL: u64 = ENUM_SEQS * 4;
 
+/// Back-off window family: a resource error (EMFILE) puts the listener into its 500 ms back-off, then every sequence
+/// of length 2..4 over {pause, resume, connect} follows without any wait, i.e. inside that window (state left behind
+/// by the back-off meets pause / resume). Index = 2 * sequence number + listener kind.
+const WIN_SEQS: u64 = 9 + 27 + 81;
+pub const WIN_TOTAL: u64 = WIN_SEQS * 2;
+/// the part of it with tails of length 2..3 (what the quick tier always runs)
+pub const WIN_SHORT: u64 = (9 + 27) * 2;
+
 impl Scn {
+    fn window(index: u64) -> Scn {
+        let uds = index % 2 == 1;
+        let mut k = index / 2;
+        let mut len = 2;
+        let mut block = 9u64;
+        while k >= block {
+            k -= block;
+            len += 1;
+            block *= 3;
+        }
+        let mut ops = vec![Op::Inject(0, EMFILE)];
+        for _ in 0..len {
+            ops.push(match k % 3 {
+                0 => Op::Pause,
+                1 => Op::Resume,
+                _ => Op::Connect(0),
+            });
+            k /= 3;
+        }
+        Scn {
+            seed: ENUM_TOTAL + index,
+            listeners: vec![if uds { LKind::Uds } else { LKind::Tcp }],
+            rt: if index % 3 == 0 { RtKind::Tokio } else { RtKind::Actix },
+            ops,
+            failpoints: false,
+            saturate: false,
+        }
+    }
+
     fn enumerated(index: u64) -> Scn {
         let variant = index / ENUM_SEQS;
         let mut k = index % ENUM_SEQS;
@@ -98,7 +135,28 @@ impl Scn {
         if seed < ENUM_TOTAL {
             return Scn::enumerated(seed);
         }
+        if seed < ENUM_TOTAL + WIN_TOTAL {
+            return Scn::window(seed - ENUM_TOTAL);
+        }
         let mut r = Rng::new(seed);
+        if r.chance(1, 5) {
+            // random member of the back-off window family: any resource error, tails up to 6, two listeners possible
+            let listeners = match r.usize(3) {
+                0 => vec![LKind::Tcp],
+                1 => vec![LKind::Uds],
+                _ => vec![LKind::Tcp, LKind::Uds],
+            };
+            let nl = listeners.len();
+            let mut ops = vec![Op::Inject(r.usize(nl), *r.pick(&[EMFILE, ENFILE, ENOMEM]))];
+            for _ in 0..2 + r.usize(5) {
+                ops.push(match r.usize(3) {
+                    0 => Op::Pause,
+                    1 => Op::Resume,
+                    _ => Op::Connect(r.usize(nl)),
+                });
+            }
+            return Scn { seed, listeners, rt: if r.chance(1, 3) { RtKind::Tokio } else { RtKind::Actix }, ops, failpoints: r.chance(1, 3), saturate: false };
+        }
         if r.chance(1, 6) {
             // saturating variant: [pause | connect]* release [connect | resume | pause]*
             let mut ops = Vec::new();
@@ -184,6 +242,8 @@ pub struct Seen {
     pub busy_waits: u64,
     pub releases_while_paused: u64,
     pub saturating_scenarios: u64,
+    pub window_scenarios: u64,
+    pub commands_inside_backoff_window: u64,
 }
 
 pub enum Outcome {
@@ -268,6 +328,9 @@ pub fn run_scenario(scn: &Scn, seen: &mut Seen) -> Outcome {
         let _ = run.barrier(false);
     }
 
+    if matches!(scn.ops.first(), Some(Op::Inject(_, e)) if !per_connection(*e)) && !scn.ops.contains(&Op::Wait) {
+        seen.window_scenarios += 1;
+    }
     let mut ops: Vec<Op> = scn.ops.clone();
     if inconclusive.is_some() {
         ops.clear();
@@ -284,6 +347,9 @@ pub fn run_scenario(scn: &Scn, seen: &mut Seen) -> Outcome {
         let epilogue = step >= scn.ops.len();
         match op {
             Op::Pause => {
+                if backoff_since.iter().any(|b| b.map_or(false, |t| t.elapsed() < Duration::from_millis(450))) {
+                    seen.commands_inside_backoff_window += 1;
+                }
                 if paused {
                     seen.idempotent_commands += 1;
                 } else {
@@ -296,6 +362,9 @@ pub fn run_scenario(scn: &Scn, seen: &mut Seen) -> Outcome {
                 paused = true;
             }
             Op::Resume => {
+                if backoff_since.iter().any(|b| b.map_or(false, |t| t.elapsed() < Duration::from_millis(450))) {
+                    seen.commands_inside_backoff_window += 1;
+                }
                 if !paused {
                     seen.idempotent_commands += 1;
                 } else {
